@@ -87,7 +87,7 @@ CLAUSES = {
     150: "C14/C15: see property (C14: USART bytes differ; C15: tick dispatch differs from the model on the same table)", 151: "C14: CAN frames handed over / result differ", 152: "C14: bytes on the link are not a prefix of the frames' bytes",
     153: "C14: success reported although bytes are missing", 154: "C14: flush failure swallowed", 155: "C14: serial result differs", 156: "C14: observation malformed",
     160: "C16: send_packet routing differs", 170: "C17: id of a registered handler handed out again", 171: "C17: registration failed", 172: "C17: remove result wrong", 173: "C17: delivery does not reach exactly the live handlers",
-    180: "C18: send error not returned before the wait callback", 181: "C18: result / trace / queue differ from the first-match (all-matches) scan", 182: "C18: send panicked",
+    180: "C18: send error not returned before the wait callback", 181: "C18: result / trace / queue differ from the first-match (all-matches) scan", 182: "C18: send panicked", 183: "C18: an exchange on a protocol object with a history differs from the same exchange on the model (something was carried over)",
     190: "C01: registration count", 191: "C01: a send failed", 192: "C01: a tick failed", 193: "C01: number of deliveries (got, expected)", 194: "C01: wrong handler, order, packet or decoded value (offending log entry follows)", 195: "C01: the sender failed",
     3054: "unparsable case or observation",
 }
@@ -179,7 +179,7 @@ PROPS = {
         level_text="Theorems C18_routing (request routed like a send; a send error returns before the wait callback), C18_single (first matching packet in arrival order, nothing after it consumed; dry link = timeout; "
                    "link error propagated), C18_multi (all matches in order, link drained), for all 16 kinds and both capture modes. C18_checker_accepts_model: the extracted checker provably accepts the model's observations.",
         level_note=NOTE_COMMON,
-        streams=[dict(EXC, view="view_C18", ok="ok_C18")],
+        streams=[dict(EXC, view="view_C18", ok="ok_C18"), dict(PRO, view="view_C18_PRO", ok="ok_C18_PRO")],
         rule=RULE_EXC,
     ),
     "C19": dict(
